@@ -371,6 +371,32 @@ func c17R4(c *Ctx) {
 				return true
 			})
 			if cmp == nil {
+				// the same comparison written as a case of a switch on the word
+				var goal Formula
+				walkNoLit(cls.Body, func(q ast.Node) bool {
+					sw, ok := q.(*ast.SwitchStmt)
+					if !ok || sw.Tag == nil || sw.Init != nil {
+						return true
+					}
+					if id := identOf(sw.Tag); id == nil || info.Uses[id] != types.Object(param) {
+						return true
+					}
+					for _, cl := range sw.Body.List {
+						for _, cx := range cl.(*ast.CaseClause).List {
+							if cv, ok := info.Types[cx]; ok && cv.Value != nil && cv.Value.Kind() == constant.String && constant.StringVal(cv.Value) == word {
+								goal = e.caseEq(sw, cx)
+							}
+						}
+					}
+					return true
+				})
+				if goal != nil {
+					ok2, how := e.Prove(ret, goal)
+					c.ob("C17.R4", key, w.Pos(ret.Pos()), ok2, map[bool]string{true: "the boolean " + word + " only for the exact word \"" + word + "\" (" + how + ")", false: "the boolean " + word + " can be produced for a word other than \"" + word + "\": " + how}[ok2])
+					return true
+				}
+			}
+			if cmp == nil {
 				c.ob("C17.R4", key, w.Pos(ret.Pos()), false, "the boolean "+word+" is produced without an exact comparison of the word with \""+word+"\" (words such as True or TRUE must stay strings)")
 				return true
 			}
